@@ -467,3 +467,31 @@ fn c01_q_monthday_sym_2021() {
 fn c01_t_monthday_sym_2020() {
     monthday_sym_endpoints(2020);
 }
+
+
+/// Probe: everything concrete except the day of the year.
+fn monthday_concrete(year: i32, m1: u8, d1: u8, m2: u8, d2: u8) {
+    let o: u32 = kani::any();
+    kani::assume(1 <= o && o <= 366);
+    let date = NaiveDate::from_yo_opt(year, o);
+    kani::assume(date.is_some());
+    let date = date.unwrap();
+    let sel = MonthdayRange::Date {
+        start: (Date::md(d1, month_from(m1)), DateOffset::default()),
+        end: (Date::md(d2, month_from(m2)), DateOffset::default()),
+    };
+    let got = sel.filter(date, &Context::default());
+    let key = |m: u32, d: u32| m * 32 + d;
+    let k = key(date.month(), date.day());
+    let (start_k, end_k) = (key(m1 as u32, d1 as u32), key(m2 as u32, d2 as u32));
+    let want = if start_k <= end_k { start_k <= k && k <= end_k } else { k >= start_k || k <= end_k };
+    assert_eq!(got, want);
+    kani::cover!(got, "match reachable");
+    kani::cover!(!got, "non-match reachable");
+}
+
+#[kani::proof]
+#[kani::unwind(5)]
+fn c01_t_probe_concrete() {
+    monthday_concrete(2021, 3, 28, 4, 16);
+}
